@@ -44,4 +44,38 @@ theorem failed_eval_equivalent_later_listExt (eqTag : String → String → Bool
   exact failed_eval_equivalent_later_closed _ force (listExtWith_laws eqTag) (listExtWith_good eqTag)
     (listExtWith_codeLawsV eqTag) (listExtWith_proc eqTag) comp cl cg count fuel s f s1 hfail h0 p0 sb sm1
 
+/-- **T07.4 at the real builtins, with `prepare_eval` made explicit** (`failed_eval_equivalent_later_installs`,
+    Proofs/C07.lean section `InstallsT074`): from the idle invariant `IdleOk` of the machine BEFORE the failing job and
+    the loader relation `Installs` for the three `prepare_eval` steps (the failing job's, and the later job's on the
+    failed VM and on its error-reset twin). No `ExtLaws` / `ExtGood` / `ExtCodeLawsV` / `ExtProc` hypothesis, no
+    per-state invariant hypothesis, no `CompGood`; `CompLaws comp` (the compiler inside `prepare_eval` acts alike on
+    `Sim`-related heaps) stays: it is inherent to a statement relating two heaps. -/
+theorem failed_eval_equivalent_later_installs_listExt (eqTag : String → String → Bool) (force : Bool)
+    (comp : CHeap → VCell → Outcome (CHeap × VCell)) (cl : CompLaws comp)
+    (count : Option Nat) (fuel : Nat) (s0 s0' : St CHeap) (e0 : Datum) (cf0 entry0 : Nat) (f : Fault) (s1 : St CHeap)
+    (i0 : IdleOk s0) (inst0 : Installs e0 cf0 s0 s0' entry0)
+    (hfail : runEval (concreteOps (listExtWith eqTag)) (cgc force) count fuel (prepare s0' entry0) = .failed f s1)
+    (sb : SizeBounded (machine (listExtWith eqTag) force) (prepare s0' entry0)) (sm1 : Small s1.heap) :
+    ∃ sf, runLoop (machine (listExtWith eqTag) force) count fuel 0 (prepare s0' entry0) = .error f sf ∧
+      s1 = cgc force (onError sf) ∧
+      (∃ ψ, Sim ψ s1 (onError sf)) ∧ IdleOk s1 ∧ IdleOk (onError sf) ∧
+      ∀ (d : VCell) (s2 t2 : St CHeap) (e : Datum) (cf : Nat), addrFree d = true →
+        prepareEval comp s1 d = .ok s2 → prepareEval comp (onError sf) d = .ok t2 →
+        Installs e cf s1 { s1 with heap := s2.heap } s2.ipL →
+        Installs e cf (onError sf) { onError sf with heap := t2.heap } t2.ipL →
+        SizeBounded (machine (listExtWith eqTag) force) s2 → SizeBounded (machine (listExtWith eqTag) force) t2 →
+        ∀ k : Nat,
+          (∀ t', pureN (machine (listExtWith eqTag) force) k t2 = .done t' →
+            ∃ s' t'', run (machine (listExtWith eqTag) force) k s2 = .done s' ∧
+              run (machine (listExtWith eqTag) force) k t2 = .done t'' ∧
+              ∀ fl, resultObs fl s' = resultObs fl t'') ∧
+          (∀ e' t', pureN (machine (listExtWith eqTag) force) k t2 = .error e' t' →
+            ∃ s' t'', run (machine (listExtWith eqTag) force) k s2 = .error e' s' ∧
+              run (machine (listExtWith eqTag) force) k t2 = .error e' t'' ∧
+              (∃ ψ, Sim ψ s' t' ∧ All2 (AddrRel ψ) (traceFrames s') (traceFrames t')) ∧
+              (∃ ψ, Sim ψ t'' t' ∧ All2 (AddrRel ψ) (traceFrames t'') (traceFrames t'))) :=
+  failed_eval_equivalent_later_installs _ force (listExtWith_laws eqTag) (listExtWith_good eqTag)
+    (listExtWith_codeLawsV eqTag) (listExtWith_proc eqTag) comp cl count fuel s0 s0' e0 cf0 entry0 f s1 i0 inst0 hfail
+    sb sm1
+
 end Marwood.Proofs.C07
